@@ -124,6 +124,12 @@ class TSBurstDetector(Elaboratable):
             with m.State("WAIT_FOR_FIRST"):
                 advance_on_match(0, target_ctrl=self._first_word_ctrl, fail_state="WAIT_FOR_FIRST")
 
+                # Only idle (non-valid) words may separate consecutive sets: any other word that
+                # doesn't start a new set ends the current run.
+                first_word_matches = (data == self._set_data[0]) & (ctrl == self._first_word_ctrl)
+                with m.If(self.sink.valid & ~first_word_matches):
+                    m.d.ss += consecutive_set_count.eq(0)
+
             # 1_DETECTED -- we're parsing the first data word; which we'll do slightly differently,
             # as it can contain a variable configuration field.
             with m.State("1_DETECTED"):
